@@ -1042,7 +1042,8 @@ class FlowIRExperimentConfiguration:
                         if str(e) not in known:
                             known.add(str(e))
                             out_errors.append(e)
-                out_errors.extend(e for e in self._concrete.validate(top_level_folders=self.top_level_folders)
+                out_errors.extend(e for e in self._concrete.validate(top_level_folders=self.top_level_folders,
+                                                                     is_primitive=self._is_primitive)
                                   if str(e) not in known)
         except Exception as e:
             self.log.debug(f"Unexpected error while validating {e} -- traceback:\n{traceback.format_exc()}")
